@@ -108,6 +108,26 @@ def decl_after_use(L):
     return flag[0]
 
 
+OUTER_NAMES = {"oa", "ob", "oc", "od", "pl", "tm", "h", "k"}
+
+
+def conditional_decl(e, cond=False):
+    """an outer variable's name is declared with := on a path that may not run (an `if` branch or `try` body, which do not
+    open a scope): whether a later mention means the local or the outer variable is only known at run time"""
+    if not isinstance(e, list) or not e:
+        return False
+    t = e[0] if isinstance(e[0], str) else None
+    if t == "decl" and cond and e[1] in OUTER_NAMES:
+        return True
+    if t in ("lambda", "for", "while", "switch"):
+        return any(conditional_decl(x, False) for x in e[1:])
+    if t == "if":
+        return conditional_decl(e[1], cond) or conditional_decl(e[2], True) or conditional_decl(e[3], True)
+    if t == "try":
+        return conditional_decl(e[1], True) or any(conditional_decl(x, False) for x in e[2:])
+    return any(conditional_decl(x, cond) for x in e)
+
+
 def has_nested_lambda(e, top=True):
     if isinstance(e, list):
         if e and e[0] == "lambda" and not top:
@@ -151,8 +171,13 @@ TEMPLATES = [
     "\\x -> (g := freeze \\q -> x + q + {U}; x = 100; g(1))",
     "\\x -> (y := 1; g := freeze \\-> (y = 5; y); g() + {U})",
     "\\x -> (fs := (for (i <- [1, 2, 3]) yield freeze \\-> i * 10 + x); x = 7; (for (g <- fs) yield g()) ++ [{U}])",
+    "\\x -> ((if (x) (h := 5; h)); {U})",      # F30: conditionally declared name (see FAMILY)
     "\\x -> x[0:{U}] if (x is list) else {U})" if False else "\\x -> (if (x is list) x[0:{U}] else {U})",
 ]
+
+
+# templates that demonstrate a recorded finding: index -> family suffix of the signature
+FAMILY = {i: "conditional_declaration" for i, t in enumerate(TEMPLATES) if t.startswith("\\x -> ((if (x) (h := 5; h)); ")}
 
 
 def check_template(nl, case, ctx=None):
@@ -162,6 +187,8 @@ def check_template(nl, case, ctx=None):
     sub = {"lam": None, "raw": src, "args": [[0], [1]], "script": "all", "ppl": case.get("ppl", "4.0"), "ptm": case.get("ptm", "5.0")}
     if neg:
         sub["neg"] = "template mentions an undeclared name"
+    elif case["t"] in FAMILY:
+        sub["family"] = FAMILY[case["t"]]
     return check_freeze(nl, sub, ctx)
 
 
@@ -219,17 +246,25 @@ def check_freeze(nl, case, ctx=None):
         if "fuel" in (op[0], of[0]):
             continue
         if op != of:
-            if decl_after_use(L):
+            if case.get("family"):
+                sig += ":" + case["family"]
+            elif decl_after_use(L):
                 sig += ":declared_after_use"
+            elif conditional_decl(L):
+                sig += ":conditional_declaration"
             return Fail(sig + ":meaning", "L = %s; L(%s) -> %s but (freeze L)(%s) -> %s" % (src, args[i], op, args[i], of))
         oa = outcome(ra[np_ + 1 + len(script) + i])
         if oa[0] == "fuel":
             continue
         if oa != op:
-            if self_shadowing_decl(L):
+            if case.get("family"):
+                sig += ":" + case["family"]
+            elif self_shadowing_decl(L):
                 sig += ":self_shadowing_initializer"
             elif decl_after_use(L):
                 sig += ":declared_after_use"
+            elif conditional_decl(L):
+                sig += ":conditional_declaration"
             return Fail(sig + ":eager_binding", "L = %s frozen, then %s: f(%s) -> %s, but L(%s) at freeze time -> %s"
                         % (src, "; ".join(script), args[i], oa, args[i], op))
     return None
